@@ -135,6 +135,135 @@ def _mutators(name, c):
     return out
 
 
+_DENY = ("view", "init", "copy", "from_", "set_", "as_imageio", "as_PILImage", "rasterize", "pyramid", "gaussian_pyramid", "increment", "trim",
+         "orthonormalize", "constrain", "crop", "rescale", "mirror", "normalize", "clip", "invert", "tojson", "erode", "dilate", "warp", "zoom", "rotate",
+         "transform", "resize", "extract", "sample", "build_mask", "compose", "apply", "project", "instance", "reconstruct", "component", "map", "repeat",
+         "whitened", "principal_components_analysis", "mahalanobis", "with_dims", "with_labels", "without_labels", "add_label", "remove_label", "get_label",
+         "find_", "is_edge", "children", "parent", "neighbours", "n_children", "n_parents", "n_neighbours", "minimum_spanning_tree", "depth_of", "vertices_at",
+         "n_vertices_at", "n_paths", "has_label", "distance_to", "bounding_box", "relative_location", "decompose", "axis_and_angle", "aligned_source",
+         "alignment_error", "pseudoinverse", "n_active", "eigenvalues_ratio", "eigenvalues_cumulative")
+
+
+def _observers(x):
+    """names of the zero-argument public queries of x (properties and methods without required parameters)"""
+    import inspect
+
+    out = []
+    for n in dir(type(x)):
+        if n.startswith("_") or n.startswith(_DENY):
+            continue
+        a = inspect.getattr_static(type(x), n, None)
+        if isinstance(a, property):
+            out.append(n)
+        elif inspect.isfunction(a):
+            try:
+                ps = [q for q in inspect.signature(a).parameters.values()][1:]
+            except (TypeError, ValueError):
+                continue
+            if all(q.default is not inspect.Parameter.empty or q.kind in (q.VAR_POSITIONAL, q.VAR_KEYWORD) for q in ps):
+                out.append(n)
+    return out
+
+
+def _observe(x, names):
+    import types
+
+    out = {}
+    for n in names:
+        try:
+            v = getattr(x, n)
+            if callable(v):
+                v = v()
+            if isinstance(v, types.GeneratorType):
+                continue
+            if isinstance(v, np.ndarray):
+                v = ("array", v.shape, str(v.dtype), v.tobytes())
+            elif hasattr(v, "__dict__") and not isinstance(v, type):
+                v = ("object", type(v).__name__, repr(sorted((k, _canon(w)) for k, w in state(v).items())) if isinstance(state(v), dict) else repr(state(v)))
+            elif hasattr(v, "todense"):
+                v = ("sparse", np.asarray(v.todense()).tobytes())
+            else:
+                v = ("value", repr(v))
+        except Exception as e:
+            v = ("raises", type(e).__name__)
+        out[n] = v
+    return out
+
+
+def _canon(w):
+    return w.tobytes() if isinstance(w, np.ndarray) else repr(w)
+
+
+def stale_observers(name, factory):
+    """query - derive - query: every zero-argument query is asked of an object, the object is copied and the copy's buffers are
+    edited (one at a time); the copy must then answer every query exactly as an identically edited copy of a twin that was never
+    asked anything.  A difference means an answer was remembered from the parent."""
+    o = factory()
+    names = _observers(o)
+    _observe(o, names)                 # warm
+    c, twin = o.copy(), factory().copy()
+    stale = set()
+    bt_by_path = dict(buffers(twin))
+    pairs = [(p, b, bt_by_path[p]) for p, b in buffers(c) if p in bt_by_path]      # (a memo may add buffers of its own to the questioned side)
+    for path, b1, b2 in pairs:
+        if b1.size == 0 or not b1.flags.writeable or not b2.flags.writeable:
+            continue
+        if path.endswith((".data", ".indices", ".indptr")) or b1.shape != b2.shape or not np.array_equal(b1, b2):
+            continue        # (the internals of a sparse matrix are re-laid out by some queries: not an editable coordinate buffer)
+        u1, u2 = _poke(b1), _poke(b2)
+        if u1 is None or u2 is None:
+            continue
+        got, want = _observe(c, names), _observe(twin, names)
+        u1(); u2()
+        for n in names:
+            if n in got and n in want and got[n] != want[n]:
+                stale.add(n + " (after writing into " + _top(path) + ")")
+    # ... and objects DERIVED from a questioned object (other size, other structure) answer like those derived from its twin
+    def derivations(x):
+        out = []
+        if hasattr(x, "from_vector") and hasattr(x, "as_vector"):
+            out.append(("from_vector", lambda: x.from_vector(np.asarray(x.as_vector(), dtype=float) * 0.5 + 1.0)))
+        if hasattr(x, "from_mask") and hasattr(x, "n_points"):
+            m = np.arange(x.n_points) != x.n_points - 1
+            if hasattr(x, "trilist") and len(x.trilist):
+                m = np.isin(np.arange(x.n_points), x.trilist[0])           # keeps one whole triangle
+            out.append(("from_mask", lambda: x.from_mask(m)))
+        if hasattr(x, "from_tri_mask"):
+            tm = np.arange(x.n_tris) != 0
+            out.append(("from_tri_mask", lambda: x.from_tri_mask(tm)))
+        if hasattr(x, "extract_channels"):
+            out.append(("extract_channels", lambda: x.extract_channels([0])))
+            out.append(("crop", lambda: x.crop([0, 1], [3, 4])))
+            out.append(("rescale", lambda: x.rescale(0.5)))
+        if hasattr(x, "constrain_mask_to_landmarks") and hasattr(x, "mask"):
+            out.append(("as_unmasked", lambda: x.as_unmasked()))
+        if hasattr(x, "with_dims") and getattr(x, "n_dims", 0) == 3:
+            out.append(("with_dims", lambda: x.with_dims([0, 1])))
+        return out
+
+    o2, t2 = factory(), factory()
+    _observe(o2, names)
+    for (dn, f1), (_, f2) in zip(derivations(o2), derivations(t2)):
+        try:
+            y1 = f1()
+        except Exception as e:
+            y1 = e
+        try:
+            y2 = f2()
+        except Exception as e:
+            y2 = e
+        if isinstance(y1, Exception) or isinstance(y2, Exception):
+            if type(y1) is not type(y2):
+                stale.add("%s() %s on a questioned object, %s on its twin" % (dn, type(y1).__name__, type(y2).__name__))
+            continue
+        ns = _observers(y1)
+        got, want = _observe(y1, ns), _observe(y2, ns)
+        for n in ns:
+            if got.get(n) != want.get(n):
+                stale.add(n + " (of the object derived by " + dn + ")")
+    return sorted(stale), names
+
+
 def record(name, family, factory):
     o = factory()
     s0 = state(o)
@@ -176,6 +305,16 @@ def record(name, family, factory):
         if d:
             leaks.add("mutator:" + mname)
             ev["detail"].append("mutator %s on the copy changed the original: %s" % (mname, d))
+    # memoised answers must not travel with a copy (reported as leaks of kind "memo:")
+    try:
+        st, names = stale_observers(name, factory)
+    except Exception as e:
+        st, names = [], []
+        ev["detail"].append("observer sweep raised %s (not judged)" % type(e).__name__)
+    ev["n_observers"] = len(names)
+    for x in st:
+        leaks.add("memo:" + x.split(" ")[0])
+        ev["detail"].append("query answered from the parent's memo: " + x)
     ev["leaks"] = sorted(leaks)
     return ev
 
